@@ -223,8 +223,9 @@ def parse_shape(R, ctx):
     EFF = [PUSHSTR, r'parse_level_filter$', r'Vec::<T, A>::push$', r'as std::iter::Iterator>::next$']
     I = FDI(f, effects=EFF, no_inline=NI, no_models=[r'Iterator>?::any$'], loop_k=ctx.k(1, 2), max_steps=80000, max_rows=80000)
     rows = I.run(b.path, arg_names=['spec'])
-    bad_ok = bad_push = bad_ws = None
-    n_ok = n_err = n_errseg = n_ws = 0
+    import table as T
+    bad_ok = bad_push = bad_ws = bad_lvl = bad_name = None
+    n_ok = n_err = n_errseg = n_ws = n_lvl = 0
     for r in rows:
         if r.undecided:
             raise CheckError(f"R17.3 parse table UNDECIDED: {r.undecided}")
@@ -252,6 +253,38 @@ def parse_shape(R, ctx):
                     seg['err'] = True
                 elif nm == 'push' and 'ModuleFilter' in (r.long(e[1][1]) + ' '.join(map(str, e[2]['x']))):
                     seg['push'] = True
+        # (c) the level of every module filter that is pushed comes from the ONE recogniser whose table R17.1 decides (parse_level_filter: six
+        # words incl. off, any case), or is the documented `all levels` of a name given without a level; any other recogniser (log::Level has
+        # no Off) makes the rendered text of a specification parse to something else
+        for e in r.effects:
+            if e[0].split('::')[-1] == 'push' and len(e[2]['x']) > 1:
+                for t in T.subterms(e[2]['x'][1]):
+                    if len(t) == 4 and t[0] == 'agg' and 'ModuleFilter' in str(t[1]) and len(t[3]) >= 2:
+                        adt = f.adts.get(t[1]) or {}
+                        fl = [x['name'] for v_ in adt.get('variants', [])[:1] for x in v_['fields']]
+                        li = fl.index('level_filter') if 'level_filter' in fl else 1
+                        lx = t[3][li]
+                        n_lvl += 1
+                        # (d) the stored module name is a piece of the input text (split / trim / copy only): names are matched against record
+                        # targets by prefix, so any rewriting (case, separators, quoting) makes the specification decide differently from its text
+                        ni_ = fl.index('module_name') if 'module_name' in fl else 0
+                        ncalls = {q[1] for q in T.subterms(t[3][ni_]) if len(q) >= 3 and q[0] in ('call', 'eff') and isinstance(q[1], str)}
+                        NAME_OK = r"::(split|splitn|split_once|rsplit_once|split_terminator|trim|trim_start|trim_end|to_string|to_owned|into|from|clone|next|as_ref|as_str|borrow|deref|map|unwrap_or|filter|then|then_some|is_empty|not|nth|get|strip_prefix|strip_suffix)$"
+                        odd = sorted(c_ for c_ in ncalls if not re.search(NAME_OK, c_.split('<')[0] if False else c_))
+                        if odd:
+                            if any(re.search(r'replace|to_lowercase|to_uppercase|to_ascii|make_ascii|escape|chars|char_indices|bytes|format|push|concat|join|repeat', o) for o in odd):
+                                bad_name = f"the module name that is stored is rewritten by {odd[0]}: it is no longer the text the user gave (prefix matching against the record's target decides differently)"
+                            else:
+                                raise CheckError(f"R17.1: derivation of a stored module name not recognised: {odd}")
+                        via = any(len(q) >= 3 and q[0] == 'eff' and re.search(r'parse_level_filter$', str(q[1])) for q in T.subterms(lx))
+                        allv = T.strip_refs(lx) in (('call', 'log::LevelFilter::max', ()),) or T.strip_refs(lx) == ('const', 'log::LevelFilter::Trace')
+                        if not via and not allv:
+                            other = [q[1] for q in T.subterms(lx) if len(q) >= 3 and q[0] in ('call', 'eff') and isinstance(q[1], str)]
+                            if any(re.search(r'to_level_filter|FromStr|str>::parse|from_str|from_usize', o) for o in other):
+                                bad_lvl = f"a level is recognised by {[o for o in other if re.search(r'to_level_filter|FromStr|parse|from_str|from_usize', o)][0]} instead of parse_level_filter: " \
+                                          "the words the renderer writes (incl. `off`) are not all understood, so Display/TOML text does not parse back to the same specification"
+                            else:
+                                raise CheckError(f"R17.1: origin of a pushed level not recognised: {repr(lx)[:200]}")
         # the last segment header (next() == None) is followed by the text-filter part: not a segment
         for sg in segs[:-1] if segs else []:
             if sg['err']:
@@ -264,6 +297,11 @@ def parse_shape(R, ctx):
         for a, v in r.cond:
             if re.search(r'is_ascii_whitespace|u8>::is_ascii_whitespace|\bbytes\(', a) and re.search(r'whitespace', a):
                 bad_ws = f"a name is tested for whitespace with {a[:120]}: narrower than str::trim's Unicode whitespace, so `foo\\u{{a0}}bar=debug` is accepted as a module filter without an error"
+    if not bad_lvl and n_lvl < 2:
+        raise CheckError(f"R17.1: pushed module filters not recognised on the rows of parse ({n_lvl})")
+    R.check('R17.1', f"{b.path}|levels-through-parse_level_filter", not bad_lvl, f"{n_lvl} pushed levels: each the result of parse_level_filter or `all levels` for a bare name",
+            f"LogSpecification::parse: {bad_lvl}", where=b.loc())
+    R.check('R17.1', f"{b.path}|names-verbatim", not bad_name, "stored module names are pieces of the input (split / trim / copy only)", f"LogSpecification::parse: {bad_name}", where=b.loc())
     R.check('R17.3', f"{b.path}|whitespace-notion", not bad_ws, "names are tested with char::is_whitespace (the notion str::trim uses)", f"LogSpecification::parse: {bad_ws}", where=b.loc())
     if not (bad_ok or bad_push or bad_ws) and (n_ok < 2 or n_err < 2 or n_errseg < 2 or n_ws < 1):
         raise CheckError(f"R17.3: form of parse not recognised (ok rows {n_ok}, error rows {n_err}, erroneous segments {n_errseg}, whitespace cases {n_ws})")
